@@ -1,0 +1,27 @@
+//go:build verif
+
+package signedexchange
+
+import (
+	"time"
+
+	"github.com/WICG/webpackage/go/signedexchange/internal/bigendian"
+)
+
+// Thin wrappers of unexported functions for the external verification
+// harness. Compiled only with the "verif" build tag.
+
+var VerifEncodeBytesUint = bigendian.EncodeBytesUint
+var VerifDecode3BytesUint = bigendian.Decode3BytesUint
+
+func VerifSerializeSignedMessage(e *Exchange, certSha256 []byte, validityUrl string, date, expires int64) ([]byte, error) {
+	return serializeSignedMessage(e, certSha256, validityUrl, date, expires)
+}
+
+func VerifVerifyTimestamps(date, expires int64, t time.Time) error {
+	return verifyTimestamps(&Signature{Date: date, Expires: expires}, t)
+}
+
+func VerifParseCacheControlDirectives(s string) map[string]string {
+	return parseCacheControlDirectives(s)
+}
